@@ -617,4 +617,315 @@ theorem nearestPeers_spec (t : Table) (id : Id) (count : Nat) (hinv : Inv t) :
       · have : acc = U := by rw [h, h']
         rw [this, hU.length_eq]
 
+/-! ### Find, and what `Update` does to the peer set -/
+
+theorem u8_xor_self (a : UInt8) : a ^^^ a = 0 := by
+  apply UInt8.toNat_inj.mp
+  simp
+
+theorem u8_xor_eq_zero {a b : UInt8} (h : a ^^^ b = 0) : a = b := by
+  have := congrArg (· ^^^ b) h
+  simp only [UInt8.xor_assoc, u8_xor_self, UInt8.xor_zero, UInt8.zero_xor] at this
+  exact this
+
+/-- the XOR distance of equal-length ids is all zeros exactly when the ids are equal -/
+theorem distance_zero_iff (a b : Id) (hl : a.length = b.length) :
+    distance a b = List.replicate a.length 0 ↔ a = b := by
+  induction a generalizing b with
+  | nil => cases b <;> simp_all [distance]
+  | cons x xs ih =>
+    cases b with
+    | nil => simp at hl
+    | cons y ys =>
+      simp only [List.length_cons, Nat.add_right_cancel_iff] at hl
+      simp only [distance, List.zipWith_cons_cons, List.length_cons, List.replicate_succ, List.cons.injEq]
+      constructor
+      · rintro ⟨h1, h2⟩
+        exact ⟨u8_xor_eq_zero h1, (ih ys hl).mp h2⟩
+      · rintro ⟨rfl, rfl⟩
+        exact ⟨u8_xor_self _, (ih xs rfl).mpr rfl⟩
+
+theorem bytesLt_zeros (d : Bytes) : bytesLt d (List.replicate d.length 0) = false := by
+  induction d with
+  | nil => rfl
+  | cons x xs ih =>
+    simp only [List.length_cons, List.replicate_succ, bytesLt]
+    have h1 : ¬ x < 0 := by rw [UInt8.lt_iff_toNat_lt]; simp
+    simp only [h1, if_false]
+    split
+    · rfl
+    · exact ih
+
+/-- nothing of the same length is below all-zeros, and only all-zeros is not above it -/
+theorem not_zeros_lt (d : Bytes) (h : bytesLt (List.replicate d.length 0) d = false) : d = List.replicate d.length 0 := by
+  induction d with
+  | nil => rfl
+  | cons x xs ih =>
+    simp only [List.length_cons, List.replicate_succ, bytesLt] at h ⊢
+    by_cases h0 : (0 : UInt8) < x
+    · simp [h0] at h
+    · simp only [h0, if_false] at h
+      have hx : x = 0 := by
+        rw [UInt8.lt_iff_toNat_lt] at h0
+        apply UInt8.toNat_inj.mp
+        simp at h0 ⊢
+        omega
+      subst hx
+      simp only [UInt8.lt_irrefl, if_false] at h
+      rw [← ih h]
+
+
+theorem eq_of_nodup_map {α β} [DecidableEq β] (f : α → β) (l : List α) (h : (l.map f).Nodup) (a b : α)
+    (ha : a ∈ l) (hb : b ∈ l) (hf : f a = f b) : a = b := by
+  induction l with
+  | nil => cases ha
+  | cons x xs ih =>
+    simp only [List.map_cons, List.nodup_cons, List.mem_map, not_exists, not_and] at h
+    rcases List.mem_cons.mp ha with rfl | ha' <;> rcases List.mem_cons.mp hb with rfl | hb'
+    · rfl
+    · exact (h.1 b hb' hf.symm).elim
+    · exact (h.1 a ha' hf).elim
+    · exact ih h.2 ha' hb'
+
+/-- what `NearestPeers` sorts: the target's own bucket is always part of it -/
+theorem nearestPeers_acc (t : Table) (id : Id) (count : Nat) (hinv : Inv t) :
+    ∃ b0 acc, t.buckets[bucketIdx t (cpl id t.loc)]? = some b0 ∧
+      nearestPeers t id count = .ok ((sortByDist id acc).take count) ∧ (∀ q ∈ b0, q ∈ acc) ∧ (∀ q ∈ acc, q ∈ t.peers) := by
+  unfold nearestPeers
+  simp only
+  have hlt := bucketIdx_lt t (cpl id t.loc) hinv.1
+  generalize bucketIdx t (cpl id t.loc) = c at hlt
+  obtain ⟨b0, hb0⟩ : ∃ b, t.buckets[c]? = some b := ⟨_, List.getElem?_eq_getElem hlt⟩
+  rw [hb0]
+  simp only
+  obtain ⟨⟨k1, h1⟩, _⟩ := collectUp_spec count (t.buckets.drop (c + 1)) b0
+  obtain ⟨⟨k2, h2⟩, _⟩ := collectUp_spec count (t.buckets.take c).reverse (collectUp count (t.buckets.drop (c + 1)) b0)
+  refine ⟨b0, _, rfl, rfl, ?_, ?_⟩
+  · intro q hq
+    rw [h2, h1]
+    simp [hq]
+  · intro q hq
+    rw [h2, h1] at hq
+    simp only [List.mem_append, List.mem_flatten] at hq
+    unfold Table.peers
+    rcases hq with (hq | ⟨b, hb, hqb⟩) | ⟨b, hb, hqb⟩
+    · exact List.mem_flatten.mpr ⟨b0, List.mem_of_getElem? hb0, hq⟩
+    · exact List.mem_flatten.mpr ⟨b, List.mem_of_mem_drop (List.mem_of_mem_take hb), hqb⟩
+    · exact List.mem_flatten.mpr ⟨b, List.mem_of_mem_take (List.mem_reverse.mp (List.mem_of_mem_take hb)), hqb⟩
+
+theorem distance_length (a b : Id) (h : a.length = b.length) : (distance a b).length = a.length := by
+  simp [distance, h]
+
+/-- **Find**: hit ⇔ member (ids of the length of the target, as in Go where every id has 20 bytes) -/
+theorem find_spec (t : Table) (id : Id) (hinv : Inv t) (hlen : ∀ p ∈ t.peers, p.id.length = id.length) :
+    ∃ r, find t id = .ok r ∧ ∀ p, r = some p ↔ (p ∈ t.peers ∧ p.id = id) := by
+  obtain ⟨b0, acc, hb0, hn, hsub0, hsub⟩ := nearestPeers_acc t id 1 hinv
+  unfold find
+  rw [hn]
+  have hperm := sortByDist_perm id acc
+  have hsorted := sortByDist_sorted id acc
+  -- uniqueness of ids in the table
+  have huniq : ∀ a b, a ∈ t.peers → b ∈ t.peers → a.id = b.id → a = b :=
+    fun a b ha hb h => eq_of_nodup_map (·.id) t.peers hinv.2.1 a b ha hb h
+  cases hs : sortByDist id acc with
+  | nil =>
+    -- nothing collected: the target's bucket is empty, so the id is not in the table
+    have hacc : acc = [] := by
+      have := hperm.length_eq; rw [hs] at this; exact List.length_eq_zero_iff.mp this.symm
+    refine ⟨none, by simp, ?_⟩
+    intro p
+    constructor
+    · intro h; cases h
+    · rintro ⟨hp, hid⟩
+      exfalso
+      -- p sits in the bucket of its id
+      obtain ⟨b, hbm, hpb⟩ := List.mem_flatten.mp hp
+      obtain ⟨i, hi⟩ := List.mem_iff_getElem?.mp hbm
+      have hpl := hinv.2.2.2 i b hi p hpb
+      rcases bucketIdx_eq_min t (cpl id t.loc) with h | h
+      · rw [hid, ← h] at hpl
+        rw [← hpl, hi] at hb0
+        injection hb0 with hb0
+        subst hb0
+        have := hsub0 p hpb
+        rw [hacc] at this
+        cases this
+      · exact hinv.1 h
+  | cons x rest =>
+    simp only [List.take_succ_cons, List.take_zero]
+    have hx : x ∈ t.peers := hsub x (hperm.mem_iff.mp (by rw [hs]; exact List.mem_cons_self ..))
+    by_cases hxid : x.id = id
+    · refine ⟨some x, by simp [hxid], ?_⟩
+      intro p
+      constructor
+      · intro h; injection h with h; subst h; exact ⟨hx, hxid⟩
+      · rintro ⟨hp, hid⟩
+        rw [huniq x p hx hp (by rw [hxid, hid])]
+    · have hne : (x.id == id) = false := by simpa using hxid
+      refine ⟨none, by simp [hne], ?_⟩
+      intro p
+      constructor
+      · intro h; cases h
+      · rintro ⟨hp, hid⟩
+        exfalso
+        -- p is in the target's bucket, hence among the sorted candidates; its distance is zero
+        obtain ⟨b, hbm, hpb⟩ := List.mem_flatten.mp hp
+        obtain ⟨i, hi⟩ := List.mem_iff_getElem?.mp hbm
+        have hpl := hinv.2.2.2 i b hi p hpb
+        rcases bucketIdx_eq_min t (cpl id t.loc) with h | h
+        · rw [hid, ← h] at hpl
+          rw [← hpl, hi] at hb0
+          injection hb0 with hb0
+          subst hb0
+          have hpacc : p ∈ x :: rest := by rw [← hs]; exact hperm.mem_iff.mpr (hsub0 p hpb)
+          rcases List.mem_cons.mp hpacc with rfl | hpr
+          · exact hxid hid
+          · rw [hs] at hsorted
+            have hpw := (List.pairwise_cons.mp hsorted).1 p hpr
+            -- distance(id, p.id) = zeros
+            have hz : distance id p.id = List.replicate id.length 0 :=
+              (distance_zero_iff id p.id (by rw [hid])).mpr hid.symm
+            have hxl : x.id.length = id.length := hlen x hx
+            have hdl : (distance id x.id).length = id.length := distance_length id x.id hxl.symm
+            rw [hz, ← hdl] at hpw
+            have := not_zeros_lt _ hpw
+            rw [hdl] at this
+            exact hxid ((distance_zero_iff id x.id hxl.symm).mp this).symm
+        · exact hinv.1 h
+
+/-! ### `Update` never evicts ("eldest preferred": a full bucket keeps its peers, the newcomer is dropped) -/
+
+theorem peers_set (t : Table) (i : Nat) (bucket b' : List Peer) (hb : t.buckets[i]? = some bucket) :
+    (∀ q, (∀ x ∈ bucket, x ∈ b') → q ∈ t.peers → q ∈ ({ t with buckets := t.buckets.set i b' } : Table).peers) ∧
+    (∀ q, q ∈ ({ t with buckets := t.buckets.set i b' } : Table).peers → q ∈ t.peers ∨ q ∈ b') := by
+  obtain ⟨pre, post, e1, e2⟩ := flatten_set t.buckets i bucket hb
+  unfold Table.peers
+  simp only
+  rw [e1, e2 b']
+  constructor
+  · intro q hsub hq
+    simp only [List.mem_append] at hq ⊢
+    rcases hq with (h | h) | h
+    · exact Or.inl (Or.inl h)
+    · exact Or.inl (Or.inr (hsub q h))
+    · exact Or.inr h
+  · intro q hq
+    simp only [List.mem_append] at hq ⊢
+    rcases hq with (h | h) | h
+    · exact Or.inl (Or.inl (Or.inl h))
+    · exact Or.inr h
+    · exact Or.inl (Or.inr h)
+
+/-- `Update` never removes a peer, and adds at most the peer it was called with -/
+theorem updateF_peers (fuel : Nat) (t t' : Table) (p : Peer) (r : UpdRes) (hinv : Inv t) (h : updateF fuel t p = .ok (t', r)) :
+    (∀ q ∈ t.peers, q ∈ t'.peers) ∧ (∀ q ∈ t'.peers, q ∈ t.peers ∨ q = p) := by
+  unfold updateF at h
+  simp only at h
+  have hlt := bucketIdx_lt t (cpl p.id t.loc) hinv.1
+  obtain ⟨bucket, hb⟩ : ∃ b, t.buckets[bucketIdx t (cpl p.id t.loc)]? = some b :=
+    ⟨_, List.getElem?_eq_getElem hlt⟩
+  rw [hb] at h
+  simp only at h
+  split at h
+  · injection h with h; injection h with h1 _
+    subst h1
+    have hperm := moveToFront_perm p.id bucket
+    obtain ⟨m1, m2⟩ := peers_set t _ bucket (moveToFront p.id bucket) hb
+    refine ⟨fun q hq => m1 q (fun x hx => hperm.mem_iff.mpr hx) hq, fun q hq => ?_⟩
+    rcases m2 q hq with h | h
+    · exact Or.inl h
+    · exact Or.inl (List.mem_flatten.mpr ⟨bucket, List.mem_of_getElem? hb, hperm.mem_iff.mp h⟩)
+  · split at h
+    · injection h with h; injection h with h1 _
+      subst h1
+      obtain ⟨m1, m2⟩ := peers_set t _ bucket (p :: bucket) hb
+      refine ⟨fun q hq => m1 q (fun x hx => List.mem_cons_of_mem _ hx) hq, fun q hq => ?_⟩
+      rcases m2 q hq with h | h
+      · exact Or.inl h
+      · rcases List.mem_cons.mp h with rfl | h
+        · exact Or.inr rfl
+        · exact Or.inl (List.mem_flatten.mpr ⟨bucket, List.mem_of_getElem? hb, h⟩)
+    · split at h
+      · cases hnb : nextBucket fuel t with
+        | error e => rw [hnb] at h; cases h
+        | ok t1 =>
+          rw [hnb] at h
+          simp only at h
+          obtain ⟨hi1, hperm, hloc, _⟩ := nextBucket_inv fuel t t1 hinv hnb
+          have hlt1 := bucketIdx_lt t1 (cpl p.id t.loc) hi1.1
+          obtain ⟨b1, hb1⟩ : ∃ b, t1.buckets[bucketIdx t1 (cpl p.id t.loc)]? = some b :=
+            ⟨_, List.getElem?_eq_getElem hlt1⟩
+          rw [hb1] at h
+          simp only at h
+          split at h
+          · injection h with h; injection h with h1 _
+            subst h1
+            exact ⟨fun q hq => hperm.mem_iff.mpr hq, fun q hq => Or.inl (hperm.mem_iff.mp hq)⟩
+          · injection h with h; injection h with h1 _
+            subst h1
+            obtain ⟨m1, m2⟩ := peers_set t1 _ b1 (p :: b1) hb1
+            refine ⟨fun q hq => m1 q (fun x hx => List.mem_cons_of_mem _ hx) (hperm.mem_iff.mpr hq), fun q hq => ?_⟩
+            rcases m2 q hq with h | h
+            · exact Or.inl (hperm.mem_iff.mp h)
+            · rcases List.mem_cons.mp h with rfl | h
+              · exact Or.inr rfl
+              · exact Or.inl (hperm.mem_iff.mp (List.mem_flatten.mpr ⟨b1, List.mem_of_getElem? hb1, h⟩))
+      · injection h with h; injection h with h1 _
+        subst h1
+        exact ⟨fun q hq => hq, fun q hq => Or.inl hq⟩
+
+/-- a newcomer whose bucket is full and is not the last one is dropped; the table does not change -/
+theorem updateF_full_nonlast (fuel : Nat) (t : Table) (p : Peer) (bucket : List Peer)
+    (hb : t.buckets[bucketIdx t (cpl p.id t.loc)]? = some bucket) (hh : has bucket p.id = false)
+    (hfull : ¬ bucket.length < t.bucketsize) (hnl : bucketIdx t (cpl p.id t.loc) ≠ t.buckets.length - 1) :
+    updateF fuel t p = .ok (t, .rejected) := by
+  unfold updateF
+  simp only [hb, hh, Bool.false_eq_true, if_false, hfull]
+  have : (bucketIdx t (cpl p.id t.loc) == t.buckets.length - 1) = false := by simpa using hnl
+  simp [this]
+
+/-- a known peer moves to the front of its bucket, the others keep their relative order -/
+theorem updateF_present (fuel : Nat) (t : Table) (p : Peer) (bucket : List Peer)
+    (hb : t.buckets[bucketIdx t (cpl p.id t.loc)]? = some bucket) (hh : has bucket p.id = true) :
+    updateF fuel t p = .ok ({ t with buckets := t.buckets.set (bucketIdx t (cpl p.id t.loc)) (moveToFront p.id bucket) }, .moved) := by
+  unfold updateF
+  simp only [hb, hh, if_true]
+
+
+theorem remove_peers (t t' : Table) (id : Id) (r : Bool) (hinv : Inv t) (h : remove t id = .ok (t', r)) :
+    ∀ q ∈ t'.peers, q ∈ t.peers := by
+  unfold remove at h
+  simp only at h
+  have hlt := bucketIdx_lt t (cpl id t.loc) hinv.1
+  obtain ⟨bucket, hb⟩ : ∃ b, t.buckets[bucketIdx t (cpl id t.loc)]? = some b := ⟨_, List.getElem?_eq_getElem hlt⟩
+  rw [hb] at h
+  injection h with h; injection h with h1 _
+  subst h1
+  intro q hq
+  rcases (peers_set t _ bucket (removeFirst id bucket) hb).2 q hq with h | h
+  · exact h
+  · exact List.mem_flatten.mpr ⟨bucket, List.mem_of_getElem? hb, (removeFirst_sublist id bucket).subset h⟩
+
+theorem run_idlen (L : Nat) (ops : List Op) (t : Table) (hinv : Inv t) (hbs : t.bucketsize > 0)
+    (hl : ∀ q ∈ t.peers, q.id.length = L) (ho : OpsIdLen L ops) :
+    ∃ t', run t ops = .ok t' ∧ Inv t' ∧ (∀ q ∈ t'.peers, q.id.length = L) := by
+  induction ops generalizing t with
+  | nil => exact ⟨t, rfl, hinv, hl⟩
+  | cons op r ih =>
+    have hstep : ∃ t1, step t op = .ok t1 ∧ Inv t1 ∧ t1.bucketsize = t.bucketsize ∧ (∀ q ∈ t1.peers, q.id.length = L) := by
+      cases op with
+      | update p =>
+        obtain ⟨t1, res, h, hi, _, hs⟩ := updateF_inv (fuelFor t) t p hinv hbs (Nat.le_refl _)
+        refine ⟨t1, by simp only [step, update, h]; rfl, hi, hs, ?_⟩
+        intro q hq
+        rcases (updateF_peers _ t t1 p res hinv h).2 q hq with h' | rfl
+        · exact hl q h'
+        · exact ho _ (List.mem_cons_self ..) _ rfl
+      | remove id =>
+        obtain ⟨t1, res, h, hi, _, hs⟩ := remove_inv t id hinv
+        exact ⟨t1, by simp only [step, h]; rfl, hi, hs, fun q hq => hl q (remove_peers t t1 id res hinv h q hq)⟩
+    obtain ⟨t1, h1, hi1, hs1, hl1⟩ := hstep
+    obtain ⟨t2, h2, hi2, hl2⟩ := ih t1 hi1 (by omega) hl1 (fun op hop => ho op (List.mem_cons_of_mem _ hop))
+    exact ⟨t2, by simp only [run, h1, h2], hi2, hl2⟩
+
 end OntVerif.Proofs.KBucket
